@@ -7,8 +7,13 @@ gas (exact GasRemaining), gastotal (directional: implementation's remaining+forw
 ret, rc, logs, oa, deps.  Error *kinds* are never compared (class only).
 """
 
+# quick tier: the history profiles run with TWO generator seeds (a seeded change must not depend on one lucky draw:
+# measured in seeded/ round 8, where unrelated generator changes had moved the draw that showed an earlier seed); the
+# profiles that are mostly exhaustive families (parsers, codec, helpers, activation) run with one
+_FAMILIES = {"parsers", "codec", "helpers", "activation"}
+
 def P(name, quick, thorough, **kw):
-    d = dict(name=name, quick=quick, thorough=thorough)
+    d = dict(name=name, quick=quick, thorough=thorough, seeds_quick=1 if name in _FAMILIES else 2)
     d.update(kw)
     return d
 
